@@ -51,14 +51,28 @@ class InfraError(Exception):
 # Lean: build, audit, driver
 # ----------------------------------------------------------------------------------------------
 
-def _lean_source_hash(extra=''):
-    h = hashlib.sha256()
-    for f in sorted(LEAN.rglob('*.lean')):
-        if '.lake' in f.parts:
+def import_closure(module):
+    """the project files a module transitively imports (including itself), by parsing `import PyamgV...` lines"""
+    seen, todo = {}, [module]
+    while todo:
+        m = todo.pop()
+        if m in seen:
             continue
-        h.update(str(f.relative_to(LEAN)).encode())
+        f = LEAN / (m.replace('.', '/') + '.lean')
+        if not f.exists():
+            continue
+        seen[m] = f
+        for dep in re.findall(r'^import\s+(PyamgV[\w.]*)', f.read_text(), flags=re.M):
+            todo.append(dep)
+    return seen
+
+
+def _lean_source_hash(pid):
+    h = hashlib.sha256()
+    for m, f in sorted(import_closure(f'PyamgV.Props.{pid}').items()):
+        h.update(m.encode())
         h.update(f.read_bytes())
-    h.update(extra.encode())
+    h.update(pid.encode())
     return h.hexdigest()[:20]
 
 
@@ -67,12 +81,13 @@ def _run(cmd, cwd=None, timeout=3600, env=None):
     return r.returncode, r.stdout, r.stderr
 
 
-def scan_forbidden():
-    """grep for sorry/admit/axiom/native_decide/... outside comments in every .lean file of the project."""
+def scan_forbidden(pid=None):
+    """grep for sorry/admit/axiom/native_decide/... outside comments in every .lean file the property's
+    theorems depend on (the import closure of Props/Cxx.lean; the whole project when pid is None)."""
     hits = []
-    for f in sorted(LEAN.rglob('*.lean')):
-        if '.lake' in f.parts:
-            continue
+    files = (sorted(f for f in LEAN.rglob('*.lean') if '.lake' not in f.parts) if pid is None
+             else sorted(import_closure(f'PyamgV.Props.{pid}').values()))
+    for f in files:
         txt = f.read_text()
         # strip block comments (incl. doc comments) and line comments
         txt = re.sub(r'/-.*?-/', lambda m: '\n' * m.group(0).count('\n'), txt, flags=re.S)
@@ -133,7 +148,7 @@ def lean_prepare(pid, need_audit=True, log=None):
             if cache.exists():
                 aud = json.loads(cache.read_text())
             else:
-                forb = scan_forbidden()
+                forb = scan_forbidden(pid)
                 af = adir / f'Audit{pid}.lean'
                 af.write_text(AUDIT_TMPL.format(pid=pid))
                 rc, out, err = _run(['lake', 'env', 'lean', str(af)], cwd=LEAN)
